@@ -59,7 +59,8 @@ def run(ctx):
         for fam in (4, 6):
             for period in (400, 3000):
                 sscen.append(["scenario", "storm %d" % period] + socklib.tcp_pair(fam) + ["bg recv 3 10", "sleepms 60", "send 2 4", "join", "bg accept 8 1", "sleepms 60", "new 9 %d tcp" % fam,
-                              "connect 9 1", "join", "send 2 3000", "recv 3 5000", "set 3 timeout 50", "recv 3 10"] + socklib.udp_pair(fam) +
+                              "connect 9 1", "join", "send 2 3000", "recv 3 5000", "set 3 timeout 50", "recv 3 10",
+                              "set 3 timeout 400", "bg recv 3 10", "sleepms 200", "send 2 6", "join"] + socklib.udp_pair(fam) +
                              ["bg recvfrom 4 100", "sleepms 50", "sendto 5 4 7 60", "join", "storm 0"])
         sp, tp = ctx.path("isock.script"), ctx.path("isock.ndjson")
         open(sp, "w").write("\n".join("\n".join(s) for s in sscen) + "\n")
